@@ -167,12 +167,14 @@ Fixpoint u_release (fuel : nat) (next : nat) (b : list (nat * list N)) : nat * l
 
 Inductive uevent : Set :=
 | UArrive (q : nat) (p : list N)    (* an authenticated sequenced segment was handed to the session *)
-| UClose.                           (* an authenticated close request / response was handed to the session *)
+| UClose                            (* an authenticated close request / response was handed to the session *)
+| UAck.                             (* an authenticated ack (not sequenced: it only moves the send side) *)
 
 Definition u_step (st : ust) (e : uevent) : ust :=
   if u_closed st then st else
   match e with
   | UClose => mkU (u_next st) (u_buf st) (u_q st) true
+  | UAck => st
   | UArrive q p =>
     if (q <? u_next st)%nat then st
     else
